@@ -162,7 +162,7 @@ var (
 		{Name: "Punct", Pattern: `[,.<>(){}=:]`},
 		{Name: "Comment", Pattern: `//.*`},
 	})
-	thriftParser = participle.MustBuild[thriftThrift](
+	thriftParser = mustBuild[thriftThrift](
 		participle.Lexer(thriftDef),
 		participle.Unquote(),
 		participle.Elide("Whitespace"),
